@@ -128,6 +128,9 @@ def gen_out_site(rng, name, idx, opts):
         body.append({'op': 'interrupt', 't': rng.choice(INTERRUPTS)})
     body.append({'op': 'ret', 'e': rng.choice([const(None), const({'s': 'ack'}), {'t': [{'v': 'a%d' % i} for i in range(nargs)]},
                                                const(rand_value(rng, 2))])})
+    if site['handler'] == 'wrap' and nargs > 0 and 'c' in body[-1]['e'] and rng.random() < 0.4:
+        # the output function changes the argument it was handed, in place; the (serialising) handler has seen it before
+        body.insert(0, {'op': 'stamp', 'x': 'a%d' % rng.randrange(nargs)})
     site['body'] = body
     if opts.get('policies'):
         site['failOnMissing'] = rng.random() < 0.6
